@@ -117,6 +117,8 @@ class TriedClient(F.Client):
         self.m = m
         self.f = f
         self.attr_vars = {"reader.process_directives": "@process_directives"}
+        # every local of the (small) function is tracked, whatever it is called
+        self.track = set(type(self).track) | {n.id for n in ast.walk(f.node) if isinstance(n, ast.Name) and isinstance(n.ctx, ast.Store)}
 
     def call_value(self, call, st):
         if isinstance(call.func, ast.Name) and self.m.class_of_name(self.f, call.func.id):
@@ -143,18 +145,19 @@ class ItemClient(F.Client):
         self.f = f
         self.v = itemvar
         self.via = None
-        self.track = {itemvar, "$item", "obj", "res"}
+        self.track = {itemvar, "$item", "obj", "res"} | {n.id for n in ast.walk(f.node) if isinstance(n, ast.Name) and isinstance(n.ctx, ast.Store)}
 
     def call_value(self, call, st):
         t = A.text(call.func)
-        if t in ("reader.get_item", "reader.next"):
+        if isinstance(call.func, ast.Attribute) and call.func.attr in ("get_item", "next") and isinstance(call.func.value, ast.Name) \
+                and call.func.value.id != "self":
             return frozenset([("c", None), ("truthy",)])
         return F.TOP
 
     def call_effect(self, call, st):
         t = A.text(call.func)
         args = [A.text(a) for a in call.args]
-        if t == "reader.put_item" and args == [self.v]:
+        if isinstance(call.func, ast.Attribute) and call.func.attr == "put_item" and isinstance(call.func.value, ast.Name) and args == [self.v]:
             return (st.set("$item", F.const("released")),)
         if isinstance(call.func, ast.Name) and self.v in args and self.m.class_of_name(self.f, call.func.id):
             return (st.set("$item", F.const("via")),)
@@ -180,8 +183,9 @@ def r2_items(m, ctx):
         if not f.module.startswith("fparser.two"):
             continue
         for n in A.body_nodes(f.node):
-            if isinstance(n, ast.Assign) and isinstance(n.value, ast.Call) and A.text(n.value.func) in ("reader.get_item", "reader.next") \
-                    and isinstance(n.targets[0], ast.Name):
+            if isinstance(n, ast.Assign) and isinstance(n.value, ast.Call) and isinstance(n.value.func, ast.Attribute) \
+                    and n.value.func.attr in ("get_item", "next") and isinstance(n.value.func.value, ast.Name) \
+                    and n.value.func.value.id != "self" and isinstance(n.targets[0], ast.Name):
                 sites.append((f, n.targets[0].id))
     for f, var in sites:
         r.instances += 1
